@@ -244,9 +244,19 @@ pub mod trace {
     use std::sync::Mutex;
     static HIST: Mutex<Vec<String>> = Mutex::new(Vec::new());
     static CTX: Mutex<&'static str> = Mutex::new("");
+    static DOMAIN: Mutex<&'static [&'static str]> = Mutex::new(&[]);
+    /// Properties whose quantified operations include the one in progress: a
+    /// panic escaping from it is attributed to the checked property if listed.
+    pub fn set_domain(d: &'static [&'static str]) {
+        *DOMAIN.lock().unwrap_or_else(|e| e.into_inner()) = d;
+    }
+    pub fn domain() -> &'static [&'static str] {
+        *DOMAIN.lock().unwrap_or_else(|e| e.into_inner())
+    }
     pub fn reset() {
         HIST.lock().unwrap_or_else(|e| e.into_inner()).clear();
         *CTX.lock().unwrap_or_else(|e| e.into_inner()) = "";
+        *DOMAIN.lock().unwrap_or_else(|e| e.into_inner()) = &[];
     }
     pub fn push(s: &str) {
         HIST.lock().unwrap_or_else(|e| e.into_inner()).push(s.to_string());
@@ -278,7 +288,12 @@ pub fn guarded(rep: &mut Report, case: u64, f: impl FnOnce(&mut Report)) {
         };
         let hist = trace::take();
         let ctx = trace::ctx();
-        let prop = if ctx.is_empty() { rep.cfg.prop.clone() } else { ctx.to_string() };
+        let dom = trace::domain();
+        let prop = if ctx.is_empty() || dom.contains(&rep.cfg.prop.as_str()) {
+            rep.cfg.prop.clone()
+        } else {
+            ctx.to_string()
+        };
         rep.cases_run += 1;
         rep.violation(
             &prop,
